@@ -313,3 +313,13 @@ Proof.
   - rewrite map_map. cbn [binary_final wf_payload]. apply map_id.
   - rewrite map_map. cbn [binary_final wf_payload]. rewrite map_id. unfold plain_write. now rewrite map_id.
 Qed.
+
+(* a recording over an existing file of that name holds the new stream only *)
+Lemma fold_fw_write tags f : fold_left fw_write tags f = f ++ concat tags.
+Proof.
+  revert f; induction tags as [|t tags IH]; intro f; cbn [fold_left concat].
+  - rewrite app_nil_r; reflexivity.
+  - rewrite IH; unfold fw_write; rewrite <- app_assoc; reflexivity.
+Qed.
+Lemma flv_record_is_file old tags : flv_record old tags = flv_file tags.
+Proof. unfold flv_record, flv_file, fw_open; rewrite fold_fw_write; unfold fw_write; reflexivity. Qed.
